@@ -60,7 +60,8 @@ func (m *MemoryKV) Renew(ctx context.Context, lease []byte, ttl time.Duration, p
 
 func (m *MemoryKV) Release(ctx context.Context, lease []byte, token uint64) error {
 	v, _ := m.fetchVal(lease)
-	if !v.lease.CompareAndSwap(token, 0) {
+	// token 0 means "no lease": it never identifies a holder, even if the lease is currently free
+	if token == 0 || !v.lease.CompareAndSwap(token, 0) {
 		return chord.ErrKVLeaseExpired
 	}
 	return nil
